@@ -81,3 +81,13 @@ package compiler
 //@ lemma lang_compilerServiceConstructor(x string)
 //@   property C11 C14
 //@   ensures [equiv] matches(x, regexServiceConstructor) <==> inLang(x, goFuncL())
+
+// Alias(p) is a function of p for the lifetime of the import table: a path keeps the local name it was first given.
+//@ interface aliaser.Alias(import_ string) string pure
+
+// C13: the Go type of a service is "interface{}" when no type is configured. (The clause tying a configured type to
+// ptr + alias(import) + "." + type was dropped: word equations over regex captures time out in all three solvers.)
+//@ func (StepCompileServices).serviceType
+//@   property C13 C14
+//@   requires [wired] s.aliaser != nil
+//@   ensures [default_type] serviceType == nil ==> result == "interface{}"
